@@ -17,7 +17,7 @@ ENGINE_TEXT = {
 
 CHECKS = {
     "C05": dict(engine="logsim", level="exploration", ref="3.1",
-                text="seeded plans of 1-4 simulated threads x 1-5 log statements (expression and named form, overlapping named streams, lazily evaluated and throwing callables, with/without tag) through 22 logger types (8 filter expressions x recording / 3-member sequence / mt sinks x records with and without tag) at each of the 6 compile-time minima, with runtime threshold flips and clock jumps placed inside statements' lifetimes by the scheduler; every statement is judged against a reference evaluator of the filter expression: formatted and sunk exactly once iff enabled, severity/tag/message unaltered, sequence members once each in order with the identical string, per-thread delivery order = statement end order",
+                text="seeded plans of 1-4 simulated threads x 1-5 log statements (expression and named form, overlapping named streams, lazily evaluated and throwing callables, statements issued by a sink member while it handles a record, with/without tag) through 22 logger types (8 filter expressions x recording / 3-member sequence / mt sinks x records with and without tag) at each of the 6 compile-time minima, with runtime threshold flips and clock jumps placed inside statements' lifetimes by the scheduler; every statement is judged against a reference evaluator of the filter expression: formatted and sunk exactly once iff enabled, severity/tag/message unaltered, sequence members once each in order with the identical string, per-thread delivery order = statement end order",
                 note="exploration over sampled schedules and plans; filter expressions are types, so 'all expressions' is a catalogue of every combinator at depth <= 2; when thresholds change while a statement is alive and the expression's verdict differs between those states, either verdict is accepted (but only one: evaluated callables imply delivery)",
                 tech="deterministic simulation: seeded thread scheduler + fault injection (threshold flips, throwing callables, clock jumps) with per-statement reference oracle"),
     "C09": dict(engine="logsim", level="exploration", ref="3.1",
@@ -29,7 +29,7 @@ CHECKS = {
                 note="the type clause is a compile-time fact the simulation only reads; runtime clauses are exploration over sampled plans/schedules with threshold flips in flight",
                 tech="deterministic simulation: seeded scheduler + threshold-flip fault injection with call-count oracle"),
     "C06": dict(engine="fvsim", level="fault_enumeration", ref="3.2",
-                text="seeded operation histories on fixed_vector<T> (four instrumented element types - copyable, move-only, copy-only, trivially copyable - capacities 0-6, positions taken from the container itself or from another live container) run under ASan/UBSan; for the chosen operation(s) of each history every single fault position (k-th element special-member call throws, k-th allocation fails) is enumerated, plus sampled fault pairs; safety clauses (size<=capacity, no unfilled slot visible, must-raise refusals, refusal leaves state unchanged, no leak / double destruction, injected exception propagates, strong guarantee for single-element ops) are checked after every operation",
+                text="seeded operation histories on fixed_vector<T> (four instrumented element types - copyable, move-only, copy-only, trivially copyable - capacities 0-6, positions taken from the container itself or from another live container, append arguments that are rvalues of the container's own elements) run under ASan/UBSan; for the chosen operation(s) of each history every single fault position (k-th element special-member call throws, k-th allocation fails) is enumerated, plus sampled fault pairs; safety clauses (size<=capacity, no unfilled slot visible, must-raise refusals, refusal leaves state unchanged, no leak / double destruction, injected exception propagates, strong guarantee for single-element ops) are checked after every operation",
                 note="sampled histories (not exhaustive); complete only over single-fault positions of the chosen operations; ASan red zones define 'outside the capacity slots'; element types and allocator are simulator stubs, fixed_vector is the real header from /repo's working tree",
                 tech="deterministic simulation with enumerated fault injection (element-operation throws, allocation failures) against a reference model"),
     "C07": dict(engine="fvsim", level="exploration", ref="3.2",
